@@ -100,7 +100,7 @@ _CTX = {}
 
 def interp_for(stubs, file=None, **kw):
     """an interpreter that resolves methods and class constants of the planner classes and the module-level names of `file`"""
-    return Interp.for_file(_CTX['src'], file or PJ, ISA, stubs, also=('mindsdb_sql/planner/plan_join.py', 'mindsdb_sql/planner/query_planner.py'), **kw)
+    return Interp.for_file(_CTX['src'], file or PJ, ISA, stubs, also=('mindsdb_sql/planner/plan_join.py', 'mindsdb_sql/planner/query_planner.py', 'mindsdb_sql/planner/ts_utils.py', 'mindsdb_sql/planner/utils.py'), **kw)
 
 
 def run(ctx):
